@@ -237,6 +237,10 @@ class _Expander(ast.NodeTransformer):
                 return ast.Name(self.renames[node.id], ast.Load())
         return node
 
+    def visit_NamedExpr(self, node: ast.NamedExpr) -> ast.AST:
+        # `(x := E)` stands for the value E (the binding itself is performed by the interpreter when it touches the node)
+        return self.visit(node.value)
+
     def _comp(self, node: ast.AST) -> ast.AST:
         bound: set[str] = set()
         for gen in node.generators:  # type: ignore[attr-defined]
@@ -392,10 +396,54 @@ class Interp:
                 if name.startswith("_") and not name.startswith("__") and f"{klass.qualname}.{name}" not in self.prg.funcs:
                     raise AnalysisError(f"anchor vanished: the queried condition `{ast.unparse(tree)[:80]}` names {klass.qualname.split(':')[1]}.{name}, which no longer exists")
 
-    def holds(self, node: ast.AST, cond: str | ast.expr) -> bool:
+    @staticmethod
+    def _truthiness_variants(tree: ast.expr) -> list[ast.expr]:
+        """the same condition with the emptiness tests of sized containers written the other way:
+        `len(X) == 0` <-> `not X`, `len(X) != 0` / `len(X) > 0` / `0 < len(X)` / `len(X) >= 1` <-> `X`"""
+
+        def is_len(e: ast.AST) -> Optional[ast.expr]:
+            if isinstance(e, ast.Call) and isinstance(e.func, ast.Name) and e.func.id == "len" and len(e.args) == 1 and not e.keywords:
+                return e.args[0]
+            return None
+
+        class ToTruth(ast.NodeTransformer):
+            changed = False
+
+            def visit_Compare(self, n: ast.Compare) -> ast.AST:
+                self.generic_visit(n)
+                if len(n.ops) != 1:
+                    return n
+                l, op, r = n.left, n.ops[0], n.comparators[0]
+                x = is_len(l)
+                zero = isinstance(r, ast.Constant) and r.value == 0
+                one = isinstance(r, ast.Constant) and r.value == 1
+                if x is not None and ((zero and isinstance(op, (ast.NotEq, ast.Gt))) or (one and isinstance(op, ast.GtE))):
+                    ToTruth.changed = True
+                    return x
+                if x is not None and zero and isinstance(op, ast.Eq):
+                    ToTruth.changed = True
+                    return ast.UnaryOp(op=ast.Not(), operand=x)
+                y = is_len(r)
+                if y is not None and isinstance(l, ast.Constant) and l.value == 0 and isinstance(op, (ast.Lt, ast.NotEq)):
+                    ToTruth.changed = True
+                    return y
+                if y is not None and isinstance(l, ast.Constant) and l.value == 0 and isinstance(op, ast.Eq):
+                    ToTruth.changed = True
+                    return ast.UnaryOp(op=ast.Not(), operand=y)
+                return n
+
+        ToTruth.changed = False
+        alt = ToTruth().visit(copy.deepcopy(tree))
+        return [ast.fix_missing_locations(alt)] if ToTruth.changed else []
+
+    def holds(self, node: ast.AST, cond: str | ast.expr, _variant: bool = False) -> bool:
         """cond is definitely true in every state reaching node (vacuously true if unreachable)"""
         tree = _canon(ast.parse(cond, mode="eval").body) if isinstance(cond, str) else cond
         self._names_exist(tree)
+        if not _variant:
+            if self.holds(node, tree, True):
+                return True
+            return any(self.holds(node, _canon(alt), True) for alt in self._truthiness_variants(tree))
         for st in self.states(node):
             outcomes = self.eval_cond(tree, st.copy(), record=False)
             if not outcomes or any(not truth for _, truth in outcomes):
